@@ -123,6 +123,65 @@ func runInterleaved(trs []*Trace, seed uint64) ([]uint64, []*Violation, int) {
 	return ds, vs, switches
 }
 
+// c19Bad re-evaluates the cross-talk condition for a group of traces.
+func c19Bad(trs []*Trace, seed uint64, k int) bool {
+	solo, sv := runSolo(trs)
+	inter, iv, _ := runInterleaved(trs, Mix(seed, uint64(k)))
+	for i := range trs {
+		switch {
+		case (sv[i] == nil) != (iv[i] == nil):
+			return true
+		case sv[i] != nil && contains(Attribute(trs[i], sv[i]), "C19"):
+			return true
+		case sv[i] == nil && solo[i] != inter[i]:
+			return true
+		}
+	}
+	return false
+}
+
+// shrinkC19 minimises a failing group: drop whole worlds, then chunks of steps per world (bounded).
+func shrinkC19(trs []*Trace, seed uint64, k int) []*Trace {
+	budget := 250
+	dl := time.Now().Add(40 * time.Second)
+	bad := func(c []*Trace) bool {
+		if budget <= 0 || time.Now().After(dl) {
+			return false
+		}
+		budget--
+		return c19Bad(c, seed, k)
+	}
+	if !bad(trs) {
+		return trs
+	}
+	cur := trs
+	for i := 0; i < len(cur) && len(cur) > 1; {
+		c := append(append([]*Trace{}, cur[:i]...), cur[i+1:]...)
+		if bad(c) {
+			cur = c
+		} else {
+			i++
+		}
+	}
+	for w := range cur {
+		for chunk := len(cur[w].Steps) / 2; chunk >= 1; chunk /= 2 {
+			for i := 0; i+chunk <= len(cur[w].Steps); {
+				t2 := cloneTrace(cur[w])
+				t2.Property = cur[w].Property
+				t2.Steps = append(append([]Step{}, cur[w].Steps[:i]...), cur[w].Steps[i+chunk:]...)
+				c := append([]*Trace{}, cur...)
+				c[w] = t2
+				if bad(c) {
+					cur = c
+				} else {
+					i += chunk
+				}
+			}
+		}
+	}
+	return cur
+}
+
 type c19Viol struct {
 	K     int    `json:"k"`
 	Class string `json:"class"`
@@ -201,6 +260,7 @@ func c19Worker(args []string) int {
 			}
 		}
 		if viol != nil {
+			trs = shrinkC19(trs, *seed, k)
 			f := c19File{Property: "C19", Build: "special-C19", Seed: *seed, K: k, Thorough: *thorough, Traces: trs, Violation: viol}
 			os.MkdirAll(*outdir, 0o755)
 			path := filepath.Join(*outdir, fmt.Sprintf("C19-%d-%d.json", *seed, k))
@@ -332,7 +392,7 @@ func specialC19(args []string) int {
 			if thorough {
 				a = append(a, "-thorough")
 			}
-			cmd := exec.Command(bin, a...)
+			cmd := exec.CommandContext(watchdogCtx(*budget), bin, a...)
 			cmd.Env = append(os.Environ(), "GOMAXPROCS=2")
 			out, err := cmd.Output()
 			mu.Lock()
@@ -381,7 +441,7 @@ func specialC19(args []string) int {
 			wg.Add(1)
 			go func(i int) {
 				defer wg.Done()
-				cmd := exec.Command(*raceBin, "special", "c19race", "-seed", fmt.Sprint(*seed), "-idx", fmt.Sprint(i), "-n", fmt.Sprint(RW),
+				cmd := exec.CommandContext(watchdogCtx(*budget), *raceBin, "special", "c19race", "-seed", fmt.Sprint(*seed), "-idx", fmt.Sprint(i), "-n", fmt.Sprint(RW),
 					"-runs", fmt.Sprint(*raceRuns), "-deadline", fmt.Sprint(deadline))
 				cmd.Env = append(os.Environ(), "GOMAXPROCS=8", "GORACE=halt_on_error=0 exitcode=0")
 				var stderr strings.Builder
@@ -414,7 +474,7 @@ func specialC19(args []string) int {
 			break
 		}
 		// confirm in a fresh process
-		c := exec.Command(bin, "replay", "-q", v.File)
+		c := exec.CommandContext(watchdogCtx(120), bin, "replay", "-q", v.File)
 		outb, _ := c.CombinedOutput()
 		if strings.Contains(string(outb), "VIOLATION property=C19") {
 			fmt.Printf("violation: class=%s group=%d %s\n", v.Class, v.K, v.Msg)
@@ -579,7 +639,7 @@ func specialC14(args []string) int {
 			defer wg.Done()
 			sd := Mix(*seed, uint64(1000+i))
 			res[i] = outcome{Seed: sd}
-			cmd := exec.Command(*bin, "-seed", fmt.Sprint(sd), "-seconds", fmt.Sprint(*seconds))
+			cmd := exec.CommandContext(watchdogCtx(*seconds+60), *bin, "-seed", fmt.Sprint(sd), "-seconds", fmt.Sprint(*seconds))
 			cmd.Env = append(os.Environ(), "GOMAXPROCS=4")
 			out, err := cmd.CombinedOutput()
 			text := string(out)
